@@ -46,9 +46,15 @@ def is_none(t) -> bool:
     return t["kind"] == "NamedType" and t["qname"] == "builtins.None"
 
 
+def sds_string(v: str) -> str:
+    """the Safe-DS string literal of a Python string, written from the Safe-DS lexer: backslash, double quote and line
+    breaks cannot stand in a literal unescaped"""
+    return '"' + "".join({"\\": "\\\\", '"': '\\"', "\n": "\\n", "\r": "\\r"}.get(c, c) for c in v) + '"'
+
+
 def lit_text(v) -> str:
     if isinstance(v, str):
-        return f'"{v}"'
+        return sds_string(v)
     if isinstance(v, bool):
         return "true" if v else "false"
     if v is None:
